@@ -59,3 +59,26 @@ Theorem C14_drained_log_reproduces_cache : forall cap h c es acts l n,
   l ∈ handler_logs n (qrun cap acts) -> replay ∅ l = Some c.
 Proof. exact drained_log_reproduces_cache. Qed.
 Print Assumptions C14_drained_log_reproduces_cache.
+
+(** Sessions with reconnections.  The quantifier of C14 is over notification
+    histories; a reconnect purges the cache between two of them.  The code
+    purges without events: the log of such a session does not replay to the
+    cache, and is not even a legal sequence once the rows come back as adds
+    (recorded finding C14 class 31, demonstrated on the code by the scenario
+    tests of C14).  Without a purge a session is a history and replays. *)
+From LOV Require Import Cache.EventsPurge.
+
+Theorem C14_purge_without_events_refuted :
+  exists h, let '(c, es) := apply_session ∅ h in replay ∅ es <> Some c.
+Proof. exact purge_refuted. Qed.
+Print Assumptions C14_purge_without_events_refuted.
+
+Theorem C14_purge_then_adds_is_illegal :
+  exists h, let '(c, es) := apply_session ∅ h in replay ∅ es = None.
+Proof. exact purge_readd_illegal. Qed.
+Print Assumptions C14_purge_then_adds_is_illegal.
+
+Theorem C14_session_without_purge_replays : forall h ns c c' es,
+  notifications h = Some ns -> apply_session c h = (c', es) -> replay c es = Some c'.
+Proof. exact session_without_purge_replays. Qed.
+Print Assumptions C14_session_without_purge_replays.
